@@ -1015,7 +1015,23 @@ std::string sqf::parser::preprocessor::impl_default::instance::parse_file(::sqf:
                 auto word = wordstream.str();
                 wordstream.str("");
                 if (current_file_scope().conditions.empty() || current_file_scope().conditions.back().allow_write)
-                    sstream << word << c;
+                {
+                    // The word in front of the quote may be an (object-like) macro like any other word
+                    auto m = word.empty() ? std::optional<::sqf::runtime::parser::macro>() : try_get_macro(word);
+                    if (m.has_value() && !m.value().is_callable())
+                    {
+                        auto res = handle_macro(runtime, fileinfo, fileinfo, m.value(), empty_parammap);
+                        if (m_errflag)
+                        {
+                            return res;
+                        }
+                        sstream << res << c;
+                    }
+                    else
+                    {
+                        sstream << word << c;
+                    }
+                }
             } break;
             case '\n':
             {
